@@ -168,20 +168,33 @@ Qed.
 (* finite grid of histories: 36 first requests x all sequences of at most two rebuilds from 6 *)
 Definition no_args : rargs :=
   {| a_method := None; a_path := None; a_qargs := None; a_headers := None;
-     a_body := None; a_data := None; a_fargs := None |}.
+     a_body := None; a_data := None; a_fargs := None; a_bare := false |}.
+Definition bare_args : rargs :=
+  {| a_method := None; a_path := None; a_qargs := None; a_headers := None;
+     a_body := None; a_data := None; a_fargs := None; a_bare := true |}.
+
+(* a bare transmit() resends the held request: same method, path, query, body; headers as the
+   previous build left them *)
+Lemma resend_request host port st :
+  let r := request_of st in
+  let r' := request_of (apply_args (snd (build_step host port st)) bare_args) in
+  q_method r' = q_method r /\ q_path r' = q_path r /\ q_qargs r' = q_qargs r /\
+  q_body r' = q_body r /\ q_headers r' = final_headers r.
+Proof. cbn. repeat split. Qed.
+
 Definition h_ops : list rargs :=
-  [ no_args;
+  [ no_args; bare_args;
     {| a_method := Some (str "POST"); a_path := None; a_qargs := None; a_headers := None;
-       a_body := Some (str "x y%"); a_data := None; a_fargs := None |};
+       a_body := Some (str "x y%"); a_data := None; a_fargs := None; a_bare := false |};
     {| a_method := None; a_path := Some (str "/c d/%25" ++ [8364]); a_qargs := None; a_headers := None;
-       a_body := None; a_data := None; a_fargs := None |};
+       a_body := None; a_data := None; a_fargs := None; a_bare := false |};
     {| a_method := None; a_path := None; a_qargs := Some [(str "q ", str "%&=")]; a_headers := None;
-       a_body := None; a_data := Some (str "{}"); a_fargs := None |};
+       a_body := None; a_data := Some (str "{}"); a_fargs := None; a_bare := false |};
     {| a_method := Some (str "PUT"); a_path := None; a_qargs := None;
        a_headers := Some [(str "x-UPPER", str "v: w")];
-       a_body := None; a_data := None; a_fargs := Some [(str "k&", [233; 43])] |};
+       a_body := None; a_data := None; a_fargs := Some [(str "k&", [233; 43])]; a_bare := false |};
     {| a_method := Some (str "GET"); a_path := None; a_qargs := Some []; a_headers := None;
-       a_body := None; a_data := None; a_fargs := None |} ].
+       a_body := None; a_data := None; a_fargs := None; a_bare := false |} ].
 Definition h_first : list request :=
   flat_map (fun m => flat_map (fun p => flat_map (fun q => map (fun b =>
     {| q_method := m; q_path := p; q_qargs := q; q_headers := [(str "Accept", str "a/b")]; q_body := b |})
